@@ -15,6 +15,7 @@ from __future__ import annotations
 
 import dataclasses
 import inspect
+import os
 import itertools
 import random
 import sys
@@ -678,7 +679,8 @@ def main(run):
              ("instantiate_kw", "subclass_instantiate"), ("dataclasses_fields", "instantiate"), ("subclass_meta", "instantiate")]
     bodies_q = ["attr_factory", "one_attr", "inherit_lazy_parent", "own_new", "inherit_collision"]
     # (the two module-level bodies have their own thread tasks below / are sequential by nature)
-    for b in (bodies_q if quick else [x for x in BODIES if x not in ("shared_decorator", "mutual_reference")]):
+    skip = () if os.environ.get("VERIF_C19_ONLY_BODY") else ("shared_decorator", "mutual_reference")
+    for b in (bodies_q if quick else [x for x in BODIES if x not in skip]):
         for tp in (pairs[:3] if quick else pairs):
             tasks.append({"part": "threads", "body": b, "triggers": list(tp), "bound": 1})
     if not quick:
@@ -695,6 +697,9 @@ def main(run):
     for i, b in enumerate(("attr_factory", "inherit_lazy_parent")):
         tasks.append({"part": "random", "body": b, "triggers": ["instantiate", "instantiate_kw", "meta_then_helper"],
                       "seed": run.seed * 10 + i, "runs": 20 if quick else 300})
+    only = os.environ.get("VERIF_C19_ONLY_BODY")  # (diagnostic aid: restrict the run to the tasks of one body)
+    if only:
+        tasks = [t for t in tasks if t.get("body") == only]
     sharded = []
     for t in tasks:
         if t["part"] == "threads":
